@@ -153,6 +153,16 @@ CLAIMED = {
         "Known findings F10 (per-call mean age on later calls) and F16 (zero-generation helper) in known_findings.json. Blocking mode is oracle-checked (each island +n).",
    technique="Lean 4 proof (inductive invariant of the protocol for all R and all interleavings) + trace validation of the implementation on an MPI stand-in",
    design="5/C12"),
+ "C04": dict(
+   text="Lean theorems over an executable port of AGraphGenerator / the five AGraphMutation kinds / AGraphCrossover as pure functions of (configuration, parent, draws), for ALL draw lists: every "
+        "ok result is a well-formed stack of the configured size using only enabled operators and existing variables (gen_wf, command_wf, node_wf, param_wf, prune_wf, fork_wf, crossover_wf, "
+        "mutate_wf), draws are consumed as a prefix within the requested bounds, and the EXACT condition under which each rejection loop can ever exit (commandLoop_progress_closed, "
+        "nodeLoop_progress_closed, command_stuck, node_stuck): termination 'for every valid configuration' is false exactly on those degenerate configurations (known finding F7). "
+        "Tie: draw logging -- the real code's draws are replayed in the model: identical children and draw counts, out-of-draws exactly on hangs; oracle on real objects for size, references, "
+        "operators, evaluability, parents intact, ages, evaluated flag.",
+   note=COMMON_NOTE + "Random draws are oracle inputs at the API level bingo calls (PMF index, randint, choice position); ages and the fit_set flag are checked on the real objects only.",
+   technique="Lean 4 proof (post-conditions over a draw-consuming monad, exact progress characterisation) + exact correspondence under logged draws",
+   design="5/C04"),
 }
 
 REASONS = {p: "check not built yet in this round (planned, see DESIGN.md section 11)" for p in PROPS}
